@@ -149,7 +149,7 @@ fn big_val(t: &TyDesc, rng: &mut Rng, budget: &mut i64) -> c03::Val {
 pub fn run_codec13(op: &str, args: &[Arg], st: &mut Stats) -> Option<Out> {
     c03::MEM_PROBE.get_or_init(|| c03::MemProbe { start: probe_start, peak: probe_peak });
     if op != "dec" || args.len() != 2 {
-        return None;
+        return super::c03bulk::run_codec13_more(op, args, st); // bulk ops (c03bulk.rs)
     }
     let d = TyDesc::parse(&args[0])?;
     let entries = c03::lookup(&d);
